@@ -37,8 +37,14 @@ func (m msg) String() string { return fmt.Sprintf("c%d:%s(%d)", m.Conn, m.Kind, 
 
 var startKinds = []string{"start", "start", "start", "start-method1", "start-method-unknown", "start-with-flags"}
 var verifyKinds = []string{"verify-right", "verify-right", "verify-right", "verify-wrong-code", "verify-random-proof", "verify-A-zero", "verify-A-N", "verify-A-2N", "verify-A-empty", "verify-A-absent", "verify-no-proof",
-	"verify-A-zero-public-proof", "verify-A-N-public-proof", "verify-A-empty-public-proof", "verify-replayed"}
-var exchangeKinds = []string{"exchange-genuine", "exchange-genuine", "exchange-second-identity", "exchange-second-identity", "exchange-empty-secret", "exchange-empty-secret", "exchange-zero-key", "exchange-zero-key", "exchange-guessable", "exchange-random-key", "exchange-tampered", "exchange-short", "exchange-absent", "exchange-replayed", "exchange-bad-signature", "exchange-name-mismatch"}
+	"verify-A-zero-public-proof", "verify-A-N-public-proof", "verify-A-empty-public-proof", "verify-replayed",
+	// a peer that knows the code but whose proof arrives damaged: the secret is known to it, the proof is not valid
+	"verify-right-code-flipped-proof", "verify-right-code-flipped-proof"}
+var exchangeKinds = []string{"exchange-genuine", "exchange-genuine", "exchange-second-identity", "exchange-second-identity", "exchange-empty-secret", "exchange-empty-secret", "exchange-zero-key", "exchange-zero-key", "exchange-guessable", "exchange-random-key", "exchange-tampered", "exchange-short", "exchange-absent", "exchange-replayed", "exchange-bad-signature", "exchange-name-mismatch",
+	// material from the secret of a proof that was NOT accepted, sealed under the key an accessory holds before any proof (all zero)
+	"exchange-unproved-secret-zero-key", "exchange-unproved-secret-zero-key", "exchange-unproved-secret",
+	// the Ed25519 neutral element as long-term key: its "signature" (neutral element, scalar 0) verifies for every message
+	"exchange-neutral-key-zero-key", "exchange-neutral-key-guessable"}
 var otherKinds = []string{"unknown-step", "empty-body", "garbage", "db-delete-controller"}
 
 // per-connection harness state
@@ -62,6 +68,7 @@ type world struct {
 	recM3    [][]byte // M3 bodies of accepted verify-right messages (an eavesdropper sees them in plaintext)
 	recM3On  []int    // the connection each of them was sent on
 	entropy  []byte
+	unproved *refctl.SRPClient // secret of a right-code verify whose proof was sent damaged
 }
 
 func wrongCode(code string) string {
@@ -141,7 +148,7 @@ func (w *world) send(m msg) (label string, err error) {
 			K = h512([]byte{})
 		}
 		body = refctl.SetupM3(A, refctl.SRPProof(salt, A, B, K))
-	case "verify-right", "verify-wrong-code", "verify-random-proof", "verify-A-zero", "verify-A-N", "verify-A-2N", "verify-A-empty", "verify-A-absent", "verify-no-proof":
+	case "verify-right", "verify-right-code-flipped-proof", "verify-wrong-code", "verify-random-proof", "verify-A-zero", "verify-A-N", "verify-A-2N", "verify-A-empty", "verify-A-absent", "verify-no-proof":
 		salt, B := []byte("0123456789abcdef"), []byte{2}
 		if cs.m2 != nil {
 			salt, B = cs.m2.Salt, cs.m2.B
@@ -157,6 +164,10 @@ func (w *world) send(m msg) (label string, err error) {
 		A, proof := srp.PublicKey(), srp.M1
 		items := []refctl.Item{{refctl.TagState, []byte{3}}}
 		switch m.Kind {
+		case "verify-right-code-flipped-proof":
+			proof = append([]byte{}, proof...)
+			proof[(m.Arg/8)%len(proof)] ^= 1 << uint(m.Arg%8)
+			w.unproved = srp // the peer knows this secret; the accessory never accepted a proof for it
 		case "verify-random-proof":
 			proof = h512([]byte{byte(m.Arg)})
 		case "verify-A-zero":
@@ -196,6 +207,25 @@ func (w *world) send(m msg) (label string, err error) {
 			body = m5(used, k, nil, k)
 			m.Kind = "exchange-random-key"
 		}
+	case "exchange-unproved-secret-zero-key", "exchange-unproved-secret":
+		k := h512([]byte{5})
+		if w.unproved != nil && w.unproved.K != nil {
+			k = w.unproved.K
+		}
+		if m.Kind == "exchange-unproved-secret" {
+			body = m5(w.ctrl, k, nil, k)
+		} else {
+			body = m5(w.ctrl, nil, make([]byte, 32), k)
+		}
+	case "exchange-neutral-key-zero-key", "exchange-neutral-key-guessable":
+		neutral := append([]byte{1}, make([]byte, 31)...)
+		sig := append(append([]byte{}, neutral...), make([]byte, 32)...)
+		plain := refctl.EncodeTLV8([]refctl.Item{{refctl.TagIdentifier, []byte(w.ctrl.ID)}, {refctl.TagPublicKey, neutral}, {refctl.TagSignature, sig}})
+		key := make([]byte, 32)
+		if m.Kind == "exchange-neutral-key-guessable" {
+			key = refctl.SetupSessionKey(h512([]byte{}))
+		}
+		body = refctl.SetupM5(key, plain)
 	case "exchange-empty-secret":
 		// keys derived the regular way, but from an empty secret (or from H of nothing)
 		k := []byte{}
@@ -552,6 +582,10 @@ func TestC02Regress(t *testing.T) {
 		{"whole genuine exchange replayed on another connection after the owner removed the pairing", []msg{{0, "start", 0}, {0, "verify-right", 0}, {0, "exchange-genuine", 0}, {0, "db-delete-controller", 0}, {1, "start", 0}, {1, "verify-replayed", 0}, {1, "exchange-replayed", 0}}},
 		{"A=0 with a proof over public values, key exchange under keys derived from the empty secret", []msg{{0, "start", 0}, {0, "verify-A-zero-public-proof", 0}, {0, "exchange-empty-secret", 0}}},
 		{"empty A with a proof over public values (K = H of nothing)", []msg{{0, "start", 0}, {0, "verify-A-empty-public-proof", 1}, {0, "exchange-empty-secret", 1}}},
+		{"right code, damaged proof, then the key exchange sealed under the all-zero key", []msg{{0, "start", 0}, {0, "verify-right-code-flipped-proof", 3}, {0, "exchange-unproved-secret-zero-key", 0}}},
+		{"wrong code, then a key exchange carrying the Ed25519 neutral element under the all-zero key", []msg{{0, "start", 0}, {0, "verify-wrong-code", 0}, {0, "exchange-neutral-key-zero-key", 0}}},
+		{"the same invalid A twice on one connection, the second time with a proof over public values", []msg{{0, "start", 0}, {0, "verify-A-N", 0}, {0, "start", 0}, {0, "verify-A-N-public-proof", 0}, {0, "exchange-empty-secret", 0}}},
+		{"the same invalid A twice (K = H of nothing)", []msg{{0, "start", 0}, {0, "verify-A-N", 0}, {0, "start", 0}, {0, "verify-A-N-public-proof", 1}, {0, "exchange-empty-secret", 1}}},
 		{"genuine M5 of connection 0 replayed on connection 1 after its own failed verify", []msg{{0, "start", 0}, {0, "verify-right", 0}, {0, "exchange-genuine", 0}, {1, "start", 0}, {1, "verify-A-zero", 0}, {1, "exchange-replayed", 0}}},
 	}
 	for i, c := range cases {
@@ -562,7 +596,9 @@ func TestC02Regress(t *testing.T) {
 			}
 		}
 		labels, err := runHistory("031-45-154", "5D8A0E6F-7C3B-4F5E-9A1B-0C2D3E4F5A6B", seed, nconns, c.ms)
-		stats.Case(stats.Hash("regress", i), true, []string{"regress"}, func() interface{} { return map[string]interface{}{"what": c.what, "messages": fmt.Sprint(c.ms), "outcomes": labels} })
+		stats.Case(stats.Hash("regress", i), true, []string{"regress"}, func() interface{} {
+			return map[string]interface{}{"what": c.what, "messages": fmt.Sprint(c.ms), "outcomes": labels}
+		})
 		if i == 0 && err == nil && (len(labels) != 3 || labels[2] != "exchange-genuine:accepted") {
 			err = fmt.Errorf("honest run ended with %v", labels)
 		}
